@@ -88,3 +88,23 @@ def compositions(N):
 
 def sub_rng(seed, *names):
     return random.Random("|".join(str(x) for x in (seed,) + names))
+
+
+def near_threshold_compositions(N):
+    """(n+, n-) pairs whose FCR lies within one residue of 1/4 or 7/20, or whose |NCPR| lies within one residue of
+    7/20 - the compositions where an inexact threshold or a rounded fraction changes the diagram-of-states region."""
+    from fractions import Fraction
+    seen = set()
+    for t in (Fraction(1, 4), Fraction(7, 20)):
+        c0 = int(t * N)
+        for tot in (c0 - 1, c0, c0 + 1):
+            if 0 <= tot <= N:
+                for a in sorted({0, tot, tot // 2, (tot * 7) // 10, tot // 5}):
+                    seen.add((a, tot - a))
+    d0 = int(Fraction(7, 20) * N)
+    for diff in (d0 - 1, d0, d0 + 1):
+        for minor in (0, 1, 2, (N - diff) // 4, (N - diff) // 2):
+            if diff >= 0 and minor >= 0 and diff + 2 * minor <= N:
+                seen.add((diff + minor, minor))
+                seen.add((minor, diff + minor))
+    return sorted(seen)
